@@ -406,6 +406,39 @@ def r3(ctx):
             both = st == {f"{dn}[{r_},{c_}]": v_, f"{dn}[{c_},{r_}]": v_} and len(lp[0].body) == 2
         else:
             raise AnalysisError(f"{f.site()}: the zipped loop filling the dense matrix does not run over the filled prefixes of row_indices / col_indices / values")
+    if ok and not lp:
+        # no loop: the two triangles written with index arrays - dense[R, C] = V ; dense[C, R] = V with R, C, V the filled prefixes.
+        # Same matrix as the element-wise walk because stored pairs are lower-triangular (add_value refuses i < j: no pair is the mirror
+        # of another), and a repeated pair takes its last value in both forms.
+        pre = {k: f"self.{k}[:self.current_index]" for k in ("row_indices", "col_indices", "values")}
+        sts = [n for n in walk_own(f.node) if isinstance(n, ast.Assign) and isinstance(n.targets[0], ast.Subscript) and U(n.targets[0].value) == dn]
+        forms = []
+        for n in sts:
+            sl = n.targets[0].slice
+            if isinstance(sl, ast.Tuple) and len(sl.elts) == 2:
+                forms.append((U(inline(sl.elts[0], env)).replace(" ", ""), U(inline(sl.elts[1], env)).replace(" ", ""), U(inline(n.value, env)).replace(" ", "")))
+        av = ctx.fn(f"{cq}.add_value")
+        i_, j_ = av.params[1], av.params[2]
+        lower = any(arm == "then" and N.b(t.stmt.test) == N.b(parse_expr(f"{i_} < {j_}")) for t, arm in CFG(av.node).raising_guards())
+        want = {(pre["row_indices"], pre["col_indices"], pre["values"]), (pre["col_indices"], pre["row_indices"], pre["values"])}
+        if len(sts) == 2 and set(forms) == want and lower:
+            ctx.ok("R3", f"{f.site()}::zeros-and-both-triangles", "starts from zeros(size, size); the filled prefixes are written at [R, C] and [C, R] (stored pairs are lower-triangular)")
+            ctx.check("R3", f"{f.site()}::returns-dense", [U(r.stmt.value) for r in rets] == [dn], "returns the assembled matrix", "does not return the assembled matrix")
+            lp = None
+        elif len(sts) == 2 and len(forms) == 2 and all(x[2] == pre["values"] for x in forms) and lower and \
+                {forms[0][0], forms[0][1]} == {pre["row_indices"], pre["col_indices"]} and forms[0] == forms[1]:
+            pass        # the same triangle twice: falls through to the report below
+        elif sts:
+            raise AnalysisError(f"{f.site()}: the dense matrix is filled without a loop by {[U(n)[:60] for n in sts]}; not a form this rule reads")
+    if lp is not None:
+        _r3_tail(ctx, f, cq, N, ok, lp, zipped, both, dn, rets, env)
+    f = ctx.fn(f"{cq}.is_complete")
+    r = returns(f.node)
+    ok = len(r) == 1 and N.b(r[0].value) == N.b(parse_expr("self.current_index == get_number_of_lower_triangular_indices(self.size)"))
+    ctx.check("R3", f"{f.site()}::pair-count", ok, "complete iff the number of stored values equals n(n-1)/2", f"is_complete returns `{U(r[0].value) if r else None}`")
+
+
+def _r3_tail(ctx, f, cq, N, ok, lp, zipped, both, dn, rets, env):
     ok = ok and len(lp) == 1 and (zipped or U(lp[0].iter) == "range(self.current_index)")
     if ok and not zipped:
         i = U(lp[0].target)
@@ -414,10 +447,6 @@ def r3(ctx):
     ctx.check("R3", f"{f.site()}::zeros-and-both-triangles", ok and both, "starts from zeros(size, size); each stored value is written at [r, c] and [c, r]",
               "the dense matrix is not built from zeros by writing every stored value to both triangles (symmetry / zero diagonal)")
     ctx.check("R3", f"{f.site()}::returns-dense", [U(r.stmt.value) for r in rets] == [dn], "returns the assembled matrix", "does not return the assembled matrix")
-    f = ctx.fn(f"{cq}.is_complete")
-    r = returns(f.node)
-    ok = len(r) == 1 and N.b(r[0].value) == N.b(parse_expr("self.current_index == get_number_of_lower_triangular_indices(self.size)"))
-    ctx.check("R3", f"{f.site()}::pair-count", ok, "complete iff the number of stored values equals n(n-1)/2", f"is_complete returns `{U(r[0].value) if r else None}`")
 
 
 def r4(ctx):
